@@ -33,7 +33,7 @@ def main():
         for prop in props.split(','):
             r = subprocess.run(['/venv/bin/python', '/verif/sa/run.py', prop, '--repo', d], stdout=subprocess.PIPE, stderr=subprocess.STDOUT)
             out = r.stdout.decode()
-            lines = out.strip().splitlines()
+            lines = [l for l in out.strip().splitlines() if not l.startswith('KNOWN-FINDING')]
             print('--- %s exit=%d' % (prop, r.returncode))
             for l in lines[:12]:
                 print('   ' + l[:400])
